@@ -1,2 +1,799 @@
+// Log-session driver (C08, C09): harness code that, as a simulated process on
+// the simulated file layer, drives the real BuildLog / DepsLog through chains
+// of sessions ending in close, kill or torn write, and compares what Load
+// reconstructs with fold models over the durable bytes.
+#include <stdio.h>
+#include <stdlib.h>
+#include <string.h>
+#include <algorithm>
+#include <map>
+#include <set>
+#include <string>
+#include <vector>
+
 #include "kernel.h"
-namespace sim { int LogDriverMain(int, char**) { return 2; } }
+#include "models.h"
+#include "world.h"   // Violation
+
+#include "build_log.h"
+#include "deps_log.h"
+#include "disk_interface.h"
+#include "graph.h"
+#include "manifest_parser.h"
+#include "state.h"
+
+namespace sim {
+extern bool g_in_sim;
+
+namespace {
+
+struct HarnessMode {
+  bool saved;
+  HarnessMode() : saved(g_in_sim) { g_in_sim = false; }
+  ~HarnessMode() { g_in_sim = saved; }
+};
+
+struct Viols {
+  std::vector<Violation> v;
+  void Report(const std::string& prop, const std::string& cls, const std::string& msg) {
+    HarnessMode hm;
+    for (auto& x : v) if (x.prop == prop && x.cls == cls) return;
+    Violation y; y.prop = prop; y.cls = cls; y.msg = msg;
+    v.push_back(y);
+  }
+};
+
+std::string EscPath(const std::string& s) {
+  std::string r;
+  for (char c : s) { if (c == ' ' || c == ':' || c == '$') r += '$'; r += c; }
+  return r;
+}
+
+std::string GenName(Tape& t, int st, int idx) {
+  static const char* kAlpha[] = {"a", "b", "o", "x/", "dir/", " ", ":", "$", ".", "-", "_", "\xc3\xa9", "#", "'", "\"", "\\", "*", "1", "2", "\x7f"};
+  uint32_t shape = t.Choice(st, 12);
+  std::string n;
+  if (shape == 0) {
+    n = std::string(1, 'a' + idx % 26);              // 1 byte
+  } else if (shape == 1) {
+    size_t len = 200 + t.Choice(st, 200);            // long
+    n.assign(len, 'L');
+  } else {
+    int parts = 1 + (int)t.Choice(st, 5);
+    for (int i = 0; i < parts; i++) n += kAlpha[t.Choice(st, 20)];
+  }
+  n += "_" + std::to_string(idx);                      // unique
+  // no leading/trailing slash trouble for the manifest parser's canonicaliser
+  while (!n.empty() && n[0] == '/') n.erase(0, 1);
+  // canonical form must be stable: avoid "./" and "//"
+  std::string c;
+  for (size_t i = 0; i < n.size(); i++) {
+    if (n[i] == '/' && (c.empty() || c.back() == '/' || c.back() == '.')) continue;
+    c += n[i];
+  }
+  return c;
+}
+
+struct LogUser : BuildLogUser {
+  std::set<std::string> dead;
+  bool IsPathDead(StringPiece s) const override { return dead.count(s.AsString()) > 0; }
+};
+
+// ===================================================================== C08
+struct IssuedLine { std::string out; std::string line; LogRec rec; };
+
+struct BuildLogChain {
+  Tape& t;
+  int st;
+  bool thorough;
+  Viols& viols;
+  std::map<std::string, long>& n;
+  std::map<std::string, long>& faults;
+  Kernel k;
+  std::string manifest;
+  std::vector<std::vector<std::string>> edges;   // outputs per edge
+  std::vector<IssuedLine> issued;                 // every record line ever handed to RecordCommand, in order
+  std::map<std::string, uint64_t> true_hash;      // output -> hash of its statement's command
+  std::string decoded;
+  int clock = 1;
+  uint64_t sig = 0;
+
+  BuildLogChain(Tape& tape, int stream, bool th, Viols& v, std::map<std::string, long>& nn, std::map<std::string, long>& ff)
+      : t(tape), st(stream), thorough(th), viols(v), n(nn), faults(ff) {}
+  uint32_t C(uint32_t m) { return t.Choice(st, m); }
+  void Note(const std::string& s) { decoded += s + "\n"; }
+
+  void Setup() {
+    k.tape = &t;
+    k.MkdirP("/w");
+    int ne = 2 + (int)C(5);
+    int idx = 0;
+    for (int e = 0; e < ne; e++) {
+      std::vector<std::string> outs;
+      int no = 1 + (int)C(3);
+      for (int o = 0; o < no; o++) outs.push_back(GenName(t, st, idx++));
+      edges.push_back(outs);
+      manifest += "rule r" + std::to_string(e) + "\n  command = cmd" + std::to_string(e) + " $out\n";
+      manifest += "build";
+      for (auto& o : outs) manifest += " " + EscPath(o);
+      manifest += ": r" + std::to_string(e) + "\n";
+    }
+    if (C(40) == 0) {
+      // one very long line (beyond the 256 KiB line reader buffer)
+      std::string big(270000 + C(1000), 'B');
+      edges.push_back({big});
+      manifest += "rule rbig\n  command = big\nbuild " + big + ": rbig\n";
+      n["very_long_line"]++;
+    }
+  }
+
+  // ---- one session; returns false when the chain should stop
+  struct Sess {
+    int nrec = 0;
+    int end = 0;            // 0 close, 1 kill before a write, 2 torn write
+    int64_t nth = 0;
+    uint32_t keep = 0;
+    int op = 0;             // 0 append, 1 restat tool, 2 explicit recompact, 3 bulk (cross the recompaction threshold)
+    std::set<std::string> dead;
+    std::vector<std::string> restat_subset;
+  };
+
+  void RunSession(int sno) {
+    Sess s;
+    s.op = (int)C(10);
+    s.op = s.op < 6 ? 0 : s.op == 6 ? 1 : s.op == 7 ? 2 : s.op == 8 ? 3 : 0;
+    s.nrec = s.op == 3 ? 110 + (int)C(60) : (int)C(7);
+    s.end = (int)C(4);
+    s.end = s.end == 3 ? 0 : s.end;
+    // dead outputs for recompaction
+    for (auto& e : edges) for (auto& o : e) if (C(6) == 0) s.dead.insert(o);
+    for (auto& e : edges) for (auto& o : e) if (C(3) == 0) s.restat_subset.push_back(o);
+    // fault position: n-th file write of this session
+    s.nth = C((uint32_t)std::max(1, s.nrec * 2 + 2));
+    s.keep = C(1 << 20);
+    // some outputs exist on disk (for restat)
+    for (auto& e : edges) for (auto& o : e) if (C(4) == 0 && o.size() < 4000) { k.WriteFile(o, "x"); }
+
+    std::string before;
+    bool had = k.ReadFile(".ninja_log", &before);
+    BuildLogFold fold = FoldBuildLog(before, had);
+
+    ProcSpec sp;
+    sp.argv = {"logsession"};
+    if (s.end == 1) sp.faults.crash_write_nth = s.nth;
+    if (s.end == 2) { sp.faults.torn_write_nth = s.nth; sp.faults.torn_keep = s.keep; }
+    sp.faults.stream = st;
+    // per-session plan decided up front from the tape (harness side)
+    struct RecPlan { int edge; int start, end; int64_t mtime; };
+    std::vector<RecPlan> plan;
+    for (int i = 0; i < s.nrec; i++) {
+      RecPlan rp;
+      rp.edge = s.op == 3 ? (int)C(2) % (int)edges.size() : (int)C((uint32_t)edges.size());
+      rp.start = clock++; rp.end = clock++;
+      rp.mtime = 1000000000000000000ll + (int64_t)C(1000000) * 1000;
+      plan.push_back(rp);
+    }
+    char hdr[160];
+    snprintf(hdr, sizeof hdr, "session %d: op=%d records=%d end=%d nth=%ld keep=%u dead=%zu log_before=%zu bytes", sno, s.op, s.nrec, s.end, (long)s.nth, s.keep, s.dead.size(), before.size());
+    Note(hdr);
+    if (getenv("SIM_DUMP_LOG") && before.size() < 5000) Note("--- .ninja_log before:\n" + before + "---");
+
+    // results filled in by the simulated process
+    struct Loaded { std::string out; uint64_t hash; int start, end; int64_t mtime; };
+    std::vector<Loaded> loaded;
+    int load_status = -1;
+    std::string load_err;
+    bool reached_load = false;
+    bool recompacted = false, restated = false, op_ok = true;
+    std::vector<IssuedLine> issued_now;
+    std::vector<Loaded> after_op;   // entries() after recompact / restat
+    std::string op_err;
+
+    const std::string man = manifest;
+    ProcResult res = k.RunFunction(sp, [&]() -> int {
+      State state;
+      ManifestParser parser(&state, nullptr);
+      std::string err;
+      if (!parser.ParseTest(man, &err)) { HarnessMode hm; op_err = "manifest: " + std::string(err.c_str()); return 3; }
+      BuildLog log;
+      LoadStatus ls = log.Load(".ninja_log", &err);
+      {
+        HarnessMode hm;
+        load_status = (int)ls;
+        load_err = std::string(err.c_str());
+        reached_load = true;
+        for (const auto& kv : log.entries()) {
+          Loaded l; l.out = std::string(kv.second->output.c_str(), kv.second->output.size());
+          l.hash = kv.second->command_hash; l.start = kv.second->start_time; l.end = kv.second->end_time; l.mtime = kv.second->mtime;
+          loaded.push_back(l);
+        }
+      }
+      if (ls == LOAD_ERROR) return 2;
+      err.clear();
+      LogUser user;
+      { for (auto& d : s.dead) user.dead.insert(d); }
+      auto snapshot = [&](std::vector<Loaded>* out) {
+        HarnessMode hm;
+        out->clear();
+        for (const auto& kv : log.entries()) {
+          Loaded l; l.out = std::string(kv.second->output.c_str(), kv.second->output.size());
+          l.hash = kv.second->command_hash; l.start = kv.second->start_time; l.end = kv.second->end_time; l.mtime = kv.second->mtime;
+          out->push_back(l);
+        }
+      };
+      if (s.op == 1) {
+        RealDiskInterface disk;
+        std::vector<char*> argv;
+        std::vector<std::string> names(s.restat_subset.begin(), s.restat_subset.end());
+        for (auto& nm : names) argv.push_back(const_cast<char*>(nm.c_str()));
+        bool ok = log.Restat(".ninja_log", disk, (int)argv.size(), argv.data(), &err);
+        { HarnessMode hm; restated = true; op_ok = ok; op_err = std::string(err.c_str()); }
+        snapshot(&after_op);
+        return 0;
+      }
+      if (s.op == 2) {
+        bool ok = log.Recompact(".ninja_log", user, &err);
+        { HarnessMode hm; recompacted = true; op_ok = ok; op_err = std::string(err.c_str()); }
+        snapshot(&after_op);
+        return 0;
+      }
+      if (!log.OpenForWrite(".ninja_log", user, &err)) { HarnessMode hm; op_ok = false; op_err = std::string(err.c_str()); return 2; }
+      for (auto& rp : plan) {
+        Edge* edge = state.edges_[rp.edge];
+        {
+          HarnessMode hm;
+          uint64_t h = BuildLog::LogEntry::HashCommand(edge->EvaluateCommand(true));
+          for (Node* o : edge->outputs_) {
+            IssuedLine il;
+            il.out = std::string(o->path().c_str(), o->path().size());
+            char b[128];
+            snprintf(b, sizeof b, "%d\t%d\t%lld\t", rp.start, rp.end, (long long)rp.mtime);
+            char hb[32];
+            snprintf(hb, sizeof hb, "\t%llx\n", (unsigned long long)h);
+            il.line = std::string(b) + il.out + hb;
+            il.rec.start = rp.start; il.rec.end = rp.end; il.rec.mtime = rp.mtime; il.rec.hash = h;
+            issued_now.push_back(il);
+          }
+        }
+        if (!log.RecordCommand(edge, rp.start, rp.end, rp.mtime)) { HarnessMode hm; op_ok = false; op_err = "RecordCommand failed"; return 2; }
+      }
+      log.Close();
+      return 0;
+    });
+    for (auto& kv : res.fired) faults[kv.first] += kv.second;
+    for (auto& il : issued_now) issued.push_back(il);
+    n["sessions"]++;
+    { uint64_t x[4] = {(uint64_t)s.op, (uint64_t)s.end, (uint64_t)res.end, sig}; sig = Hash64(x, sizeof x); }
+
+    if (res.end != ProcResult::kExit && res.end != ProcResult::kCrashed) {
+      viols.Report("C13", "abnormal_exit", "log session ended abnormally: " + res.end_detail);
+      viols.Report("C08", "log_load_mismatch", "log session ended abnormally: " + res.end_detail);
+      return;
+    }
+    // true hashes (needed for the 'never up to date' rule)
+    for (auto& il : issued_now) true_hash[il.out] = il.rec.hash;
+
+    // a restat rewrites records with the files' current mtimes: those lines are legitimate too
+    if (s.op == 1) {
+      std::set<std::string> sub(s.restat_subset.begin(), s.restat_subset.end());
+      for (auto& l : loaded) {
+        if (!sub.empty() && !sub.count(l.out)) continue;
+        IssuedLine il;
+        il.out = l.out;
+        il.rec.start = l.start; il.rec.end = l.end; il.rec.hash = l.hash; il.rec.mtime = k.Mtime(l.out);
+        char b[128]; snprintf(b, sizeof b, "%d\t%d\t%lld\t", l.start, l.end, (long long)il.rec.mtime);
+        char hb[32]; snprintf(hb, sizeof hb, "\t%llx\n", (unsigned long long)l.hash);
+        il.line = std::string(b) + l.out + hb;
+        issued.push_back(il);
+      }
+    }
+    if (reached_load) CheckLoad(before, had, fold, load_status, load_err, loaded);
+    std::string after;
+    bool has_after = k.ReadFile(".ninja_log", &after);
+    if (res.end == ProcResult::kExit && op_ok) {
+      if (recompacted) CheckRecompact(loaded, s.dead, after, has_after, after_op);
+      if (restated) CheckRestat(loaded, s.restat_subset, after, has_after);
+      // automatic recompaction inside OpenForWrite
+      if (!recompacted && !restated && fold.valid_header && fold.total > 100 && fold.total > 3 * (int)fold.last.size()) {
+        n["auto_recompaction"]++;
+        CheckAutoRecompact(fold, s.dead, after, has_after, issued_now);
+      }
+    }
+    if (res.end == ProcResult::kCrashed) n["sessions_killed"]++;
+    if (res.fired.count("torn_write")) n["torn_writes"]++;
+  }
+
+
+  template <class L>
+  void CheckLoad(const std::string& bytes, bool had, const BuildLogFold& fold, int status, const std::string& err, const std::vector<L>& loaded) {
+    n["loads_checked"]++;
+    if (status == (int)LOAD_ERROR) {
+      viols.Report("C08", "log_load_mismatch", "BuildLog::Load failed on a log that only ever received appends and torn writes: " + err);
+      return;
+    }
+    if (!had) {
+      if (!loaded.empty()) viols.Report("C08", "log_load_mismatch", "entries loaded from a log that does not exist");
+      return;
+    }
+    std::map<std::string, const L*> got;
+    for (auto& l : loaded) got[l.out] = &l;
+    if (!fold.valid_header) {
+      // unsupported or damaged header: discarded, never an error
+      if (fold.version != 0 && !loaded.empty())
+        viols.Report("C08", "log_load_mismatch", "a log of unsupported version " + std::to_string(fold.version) + " was not discarded");
+      return;
+    }
+    // exactly the completely written records, last per output winning
+    for (auto& kv : fold.last) {
+      auto g = got.find(kv.first);
+      if (g == got.end()) {
+        viols.Report("C08", "log_lost_record", "Load lost the complete record of '" + kv.first.substr(0, 60) + "'");
+        continue;
+      }
+      const L& l = *g->second;
+      if (l.hash != kv.second.hash || l.mtime != kv.second.mtime || l.start != kv.second.start || l.end != kv.second.end)
+        viols.Report("C08", "log_load_mismatch", "Load yields a different record for '" + kv.first.substr(0, 60) + "' than the last complete line of the file");
+    }
+    for (auto& l : loaded)
+      if (!fold.last.count(l.out)) viols.Report("C08", "log_load_mismatch", "Load invented an entry for '" + l.out.substr(0, 60) + "' that no complete line of the file carries");
+    // (a line longer than the reader's window is dropped and its remnant re-read
+    // mid-line; the simple line view used below does not apply to such a file)
+    {
+      size_t ls = 0;
+      while (ls < bytes.size()) {
+        size_t nl = bytes.find('\n', ls);
+        if (nl == std::string::npos) nl = bytes.size();
+        if (nl - ls + 1 > (256u << 10)) return;
+        ls = nl + 1;
+      }
+    }
+    // never up to date without justification: an entry carrying the statement's
+    // true hash must equal the latest line in the file that is byte-for-byte a record we issued
+    for (auto& l : loaded) {
+      auto th = true_hash.find(l.out);
+      if (th == true_hash.end() || th->second != l.hash) continue;
+      const IssuedLine* latest = nullptr;
+      size_t latest_pos = 0;
+      for (auto& il : issued) {
+        if (il.out != l.out) continue;
+        // last occurrence of the record's decisive part (mtime, output, hash, newline);
+        // a fragment merged in front of a complete record can garble its start/end
+        // times, which only feed the ETA display
+        // (only a fragment without a tab keeps the fields aligned; any other merge
+        // turns the line into a record of something else)
+        size_t t2 = il.line.find('\t', il.line.find('\t') + 1);
+        std::string tail = il.line.substr(t2);
+        size_t found = std::string::npos;
+        for (size_t pos = bytes.size(); pos > 0 && (pos = bytes.rfind(tail, pos - 1)) != std::string::npos; ) {
+          size_t ls = pos == 0 ? 0 : bytes.rfind('\n', pos - 1);
+          ls = ls == std::string::npos ? 0 : ls + 1;
+          std::string prefix = bytes.substr(ls, pos - ls);
+          if (std::count(prefix.begin(), prefix.end(), '\t') == 1) { found = pos; break; }
+          if (pos == 0) break;
+        }
+        if (found != std::string::npos && (!latest || found >= latest_pos)) { latest = &il; latest_pos = found; }
+      }
+      if (!latest) {
+        viols.Report("C08", "log_false_fresh", "'" + l.out.substr(0, 60) + "' looks up to date (true command hash) although no complete record of it is in the file");
+      } else if (latest->rec.mtime != l.mtime) {
+        // a later garbled line may only make it look out of date; same hash with other numbers is a fabricated record
+        viols.Report("C08", "log_false_fresh", "'" + l.out.substr(0, 60) + "' carries the true command hash with times that no complete record justifies");
+      } else {
+        n["fresh_entries_justified"]++;
+      }
+    }
+  }
+
+  template <class L>
+  void CheckRecompact(const std::vector<L>& loaded, const std::set<std::string>& dead, const std::string& after, bool has_after, const std::vector<L>& mem_after) {
+    n["recompactions_checked"]++;
+    if (!has_after) { viols.Report("C08", "log_lost_record", "the log is gone after a recompaction that reported success"); return; }
+    BuildLogFold fa = FoldBuildLog(after, true);
+    for (auto& l : loaded) {
+      bool is_dead = dead.count(l.out) > 0;
+      auto a = fa.last.find(l.out);
+      if (is_dead) {
+        if (a != fa.last.end()) viols.Report("C08", "log_load_mismatch", "recompaction kept the dead output '" + l.out.substr(0, 60) + "'");
+      } else if (a == fa.last.end()) {
+        viols.Report("C08", "log_lost_record", "recompaction dropped the live output '" + l.out.substr(0, 60) + "'");
+      } else if (a->second.hash != l.hash || a->second.mtime != l.mtime || a->second.start != l.start || a->second.end != l.end) {
+        viols.Report("C08", "log_load_mismatch", "recompaction changed the record of '" + l.out.substr(0, 60) + "'");
+      }
+    }
+    std::set<std::string> had;
+    for (auto& l : loaded) had.insert(l.out);
+    for (auto& kv : fa.last) if (!had.count(kv.first)) viols.Report("C08", "log_load_mismatch", "recompaction invented '" + kv.first.substr(0, 60) + "'");
+    if (fa.total != (int)fa.last.size()) viols.Report("C08", "log_load_mismatch", "recompacted log still has duplicate records");
+    (void)mem_after;
+  }
+
+  template <class L>
+  void CheckRestat(const std::vector<L>& loaded, const std::vector<std::string>& subset, const std::string& after, bool has_after) {
+    n["restats_checked"]++;
+    if (!has_after) { viols.Report("C08", "log_lost_record", "the log is gone after a restat that reported success"); return; }
+    BuildLogFold fa = FoldBuildLog(after, true);
+    std::set<std::string> sub(subset.begin(), subset.end());
+    for (auto& l : loaded) {
+      auto a = fa.last.find(l.out);
+      if (a == fa.last.end()) { viols.Report("C08", "log_lost_record", "restat dropped '" + l.out.substr(0, 60) + "'"); continue; }
+      if (a->second.hash != l.hash || a->second.start != l.start || a->second.end != l.end)
+        viols.Report("C08", "log_load_mismatch", "restat changed more than the mtime of '" + l.out.substr(0, 60) + "'");
+      bool selected = sub.empty() || sub.count(l.out);
+      int64_t disk = k.Mtime(l.out);
+      if (selected) {
+        if (a->second.mtime != disk) viols.Report("C08", "log_load_mismatch", "restat recorded mtime " + std::to_string(a->second.mtime) + " for '" + l.out.substr(0, 60) + "' but the file has " + std::to_string(disk));
+      } else if (a->second.mtime != l.mtime) {
+        viols.Report("C08", "log_load_mismatch", "restat changed the mtime of '" + l.out.substr(0, 60) + "' which was not selected");
+      }
+    }
+    if (fa.last.size() != loaded.size()) viols.Report("C08", "log_load_mismatch", "restat changed the set of recorded outputs");
+  }
+
+  void CheckAutoRecompact(const BuildLogFold& before, const std::set<std::string>& dead, const std::string& after, bool has_after,
+                          const std::vector<IssuedLine>& appended) {
+    if (!has_after) { viols.Report("C08", "log_lost_record", "the log is gone after automatic recompaction"); return; }
+    BuildLogFold fa = FoldBuildLog(after, true);
+    std::map<std::string, LogRec> want;
+    for (auto& kv : before.last) if (!dead.count(kv.first)) want[kv.first] = kv.second;
+    for (auto& il : appended) if (il.line.size() <= (256u << 10)) want[il.out] = il.rec;   // longer lines are unreadable by design
+    for (auto& kv : want) {
+      auto a = fa.last.find(kv.first);
+      if (a == fa.last.end()) { viols.Report("C08", "log_lost_record", "automatic recompaction lost the latest record of '" + kv.first.substr(0, 60) + "'"); continue; }
+      if (a->second.hash != kv.second.hash || a->second.mtime != kv.second.mtime)
+        viols.Report("C08", "log_load_mismatch", "after automatic recompaction '" + kv.first.substr(0, 60) + "' does not carry its latest record");
+    }
+    for (auto& kv : fa.last) if (!want.count(kv.first)) viols.Report("C08", "log_load_mismatch", "automatic recompaction kept or invented '" + kv.first.substr(0, 60) + "'");
+  }
+
+  void Damage() {
+    std::string b;
+    if (!k.ReadFile(".ninja_log", &b)) return;
+    uint32_t kind = C(6);
+    if (kind == 0) {           // unsupported version header
+      static const char* kHdr[] = {"# ninja log v5\n", "# ninja log v6\n", "# ninja log v8\n", "# ninja log v99\n", "# ninja log v4\n"};
+      size_t nl = b.find('\n');
+      if (nl != std::string::npos) b = std::string(kHdr[C(5)]) + b.substr(nl + 1);
+      Note("damage: version header replaced");
+      n["unsupported_version"]++;
+    } else if (kind == 1 && !b.empty()) {   // truncation at any byte
+      b.resize(C((uint32_t)b.size() + 1));
+      Note("damage: truncated to " + std::to_string(b.size()));
+      n["truncations"]++;
+    } else {
+      return;
+    }
+    k.WriteFile(".ninja_log", b, true);
+  }
+
+  void Run() {
+    Setup();
+    int ns = 2 + (int)C(5);
+    for (int i = 0; i < ns; i++) {
+      RunSession(i);
+      if (C(5) == 0) Damage();
+    }
+    // final load-only session
+    RunSessionLoadOnly();
+  }
+
+  void RunSessionLoadOnly() {
+    // a session with zero records and a clean close is a pure load check
+    std::string before;
+    bool had = k.ReadFile(".ninja_log", &before);
+    BuildLogFold fold = FoldBuildLog(before, had);
+    struct Loaded { std::string out; uint64_t hash; int start, end; int64_t mtime; };
+    std::vector<Loaded> loaded;
+    int status = -1;
+    std::string lerr;
+    ProcSpec sp;
+    sp.argv = {"logload"};
+    sp.faults.stream = st;
+    ProcResult res = k.RunFunction(sp, [&]() -> int {
+      BuildLog log;
+      std::string err;
+      LoadStatus ls = log.Load(".ninja_log", &err);
+      HarnessMode hm;
+      status = (int)ls;
+      lerr = std::string(err.c_str());
+      for (const auto& kv : log.entries()) {
+        Loaded l; l.out = std::string(kv.second->output.c_str(), kv.second->output.size());
+        l.hash = kv.second->command_hash; l.start = kv.second->start_time; l.end = kv.second->end_time; l.mtime = kv.second->mtime;
+        loaded.push_back(l);
+      }
+      return 0;
+    });
+    if (res.end != ProcResult::kExit) { viols.Report("C08", "log_load_mismatch", "load-only session ended abnormally: " + res.end_detail); return; }
+    CheckLoad(before, had, fold, status, lerr, loaded);
+  }
+};
+
+// ===================================================================== C09
+struct DepsChain {
+  Tape& t;
+  int st;
+  bool thorough;
+  Viols& viols;
+  std::map<std::string, long>& n;
+  std::map<std::string, long>& faults;
+  Kernel k;
+  std::vector<std::string> outs, deps;   // path pools
+  std::set<std::string> live;            // outputs that still have a deps= statement
+  std::string decoded;
+  uint64_t sig = 0;
+  // what each session recorded (for the append-after-recover rule)
+  DepsChain(Tape& tape, int stream, bool th, Viols& v, std::map<std::string, long>& nn, std::map<std::string, long>& ff)
+      : t(tape), st(stream), thorough(th), viols(v), n(nn), faults(ff) {}
+  uint32_t C(uint32_t m) { return t.Choice(st, m); }
+  void Note(const std::string& s) { decoded += s + "\n"; }
+
+  std::string PathOfLen(size_t len, int idx) {
+    std::string tag = "_" + std::to_string(idx);
+    std::string s;
+    if (len <= tag.size()) { s = tag.substr(0, len ? len : 1); if (s[0] == '_') s[0] = (char)('a' + idx % 26); return s; }
+    s.assign(len - tag.size(), 'p');
+    return s + tag;
+  }
+
+  void Setup() {
+    k.tape = &t;
+    k.MkdirP("/w");
+    int no = 2 + (int)C(5), nd = 2 + (int)C(8);
+    int idx = 0;
+    for (int i = 0; i < no; i++) { outs.push_back(PathOfLen(1 + C(12), idx)); idx++; }
+    for (int i = 0; i < nd; i++) {
+      size_t len = 1 + C(12);
+      if (C(30) == 0) len = 5000 + C(100000);       // long path
+      deps.push_back(PathOfLen(len, idx)); idx++;
+    }
+    // uniqueness
+    std::set<std::string> seen;
+    for (auto* v : {&outs, &deps}) for (auto& p : *v) { while (seen.count(p)) p += "u"; seen.insert(p); }
+    for (auto& o : outs) live.insert(o);
+  }
+
+  std::string ManifestText() const {
+    std::string m = "rule cc\n  command = cc $out\n  deps = gcc\n  depfile = $out.d\nrule plain\n  command = plain $out\n";
+    for (auto& o : outs) m += "build " + EscPath(o) + ": " + (live.count(o) ? "cc" : "plain") + "\n";
+    return m;
+  }
+
+  struct Got { bool has = false; int64_t mtime = 0; std::vector<std::string> deps; };
+
+  void RunSession(int sno) {
+    int op = (int)C(10);
+    op = op < 7 ? 0 : op == 7 ? 1 : 0;       // 0 append, 1 explicit recompact
+    int nrec = (int)C(6);
+    if (C(25) == 0) nrec = 1100 + (int)C(200);   // cross the 1000-record threshold
+    int end = (int)C(4);
+    end = end == 3 ? 0 : end;
+    int64_t nth = C((uint32_t)std::max(1, nrec * 3 + 2));
+    uint32_t keep = C(1 << 20);
+    if (op == 1 && C(2) == 0 && live.size() > 1) { auto it = live.begin(); std::advance(it, C((uint32_t)live.size())); live.erase(it); }
+
+    std::string before;
+    bool had = k.ReadFile(".ninja_deps", &before);
+    DepsLogFold fold = FoldDepsLog(before, had);
+
+    struct RecPlan { int out; int64_t mtime; std::vector<int> deps; };
+    std::vector<RecPlan> plan;
+    for (int i = 0; i < nrec; i++) {
+      RecPlan rp;
+      rp.out = nrec > 1000 ? (int)C(2) % (int)outs.size() : (int)C((uint32_t)outs.size());
+      rp.mtime = 1 + (int64_t)C(1000000) + ((int64_t)C(1000) << 32);
+      int ndp = (int)C(5);
+      for (int j = 0; j < ndp; j++) rp.deps.push_back((int)C((uint32_t)deps.size()));
+      plan.push_back(rp);
+    }
+    char hdr[160];
+    snprintf(hdr, sizeof hdr, "session %d: op=%d records=%d end=%d nth=%ld keep=%u before=%zu bytes good=%zu", sno, op, nrec, end, (long)nth, keep, before.size(), fold.good_size);
+    Note(hdr);
+
+    ProcSpec sp;
+    sp.argv = {"depssession"};
+    if (end == 1) sp.faults.crash_write_nth = nth;
+    if (end == 2) { sp.faults.torn_write_nth = nth; sp.faults.torn_keep = keep; }
+    sp.faults.stream = st;
+
+    std::map<std::string, Got> got;          // after Load
+    std::map<std::string, Got> got_after;    // after recompaction
+    int status = -1;
+    std::string lerr, op_err;
+    bool reached = false, op_ok = true, recompacted = false;
+    std::vector<std::pair<std::string, Got>> recorded_ok;   // RecordDeps calls that returned true, in order
+    size_t size_after_load = 0;
+    bool exists_after_load = false;
+    const std::string man = ManifestText();
+    const std::vector<std::string> all_outs = outs, all_deps = deps;
+    Kernel* kp = &k;
+
+    ProcResult res = k.RunFunction(sp, [&]() -> int {
+      State state;
+      ManifestParser parser(&state, nullptr);
+      std::string err;
+      if (!parser.ParseTest(man, &err)) { HarnessMode hm; op_err = "manifest: " + std::string(err.c_str()); op_ok = false; return 3; }
+      DepsLog log;
+      LoadStatus ls = log.Load(".ninja_deps", &state, &err);
+      auto snapshot = [&](std::map<std::string, Got>* dst) {
+        for (auto& o : all_outs) {
+          Node* nd = state.LookupNode(o);
+          DepsLog::Deps* d = nd ? log.GetDeps(nd) : nullptr;
+          HarnessMode hm;
+          Got g;
+          if (d) {
+            g.has = true; g.mtime = d->mtime;
+            for (int i = 0; i < d->node_count; i++) g.deps.push_back(std::string(d->nodes[i]->path().c_str(), d->nodes[i]->path().size()));
+          }
+          (*dst)[o] = g;
+        }
+      };
+      {
+        { HarnessMode hm; status = (int)ls; lerr = std::string(err.c_str()); reached = true; }
+        snapshot(&got);
+        HarnessMode hm;
+        std::string cur;
+        exists_after_load = kp->ReadFile(".ninja_deps", &cur);
+        size_after_load = cur.size();
+      }
+      if (ls == LOAD_ERROR) return 2;
+      err.clear();
+      if (op == 1) {
+        bool ok = log.Recompact(".ninja_deps", &err);
+        { HarnessMode hm; recompacted = true; op_ok = ok; op_err = std::string(err.c_str()); }
+        snapshot(&got_after);
+        return 0;
+      }
+      if (!log.OpenForWrite(".ninja_deps", &err)) { HarnessMode hm; op_ok = false; op_err = std::string(err.c_str()); return 2; }
+      for (auto& rp : plan) {
+        Node* out = state.GetNode(all_outs[rp.out], 0);
+        std::vector<Node*> dn;
+        for (int j : rp.deps) dn.push_back(state.GetNode(all_deps[j], 0));
+        bool ok = log.RecordDeps(out, rp.mtime, dn);
+        HarnessMode hm;
+        if (!ok) { op_ok = false; op_err = "RecordDeps failed"; return 2; }
+        Got g; g.has = true; g.mtime = rp.mtime;
+        for (int j : rp.deps) g.deps.push_back(all_deps[j]);
+        recorded_ok.emplace_back(all_outs[rp.out], g);
+      }
+      log.Close();
+      return 0;
+    });
+    for (auto& kv : res.fired) faults[kv.first] += kv.second;
+    n["sessions"]++;
+    { uint64_t x[4] = {(uint64_t)op, (uint64_t)end, (uint64_t)res.end, sig}; sig = Hash64(x, sizeof x); }
+    if (res.end != ProcResult::kExit && res.end != ProcResult::kCrashed) {
+      viols.Report("C13", "abnormal_exit", "deps-log session ended abnormally: " + res.end_detail);
+      viols.Report("C09", "log_load_mismatch", "deps-log session ended abnormally: " + res.end_detail);
+      return;
+    }
+    if (!reached) return;
+    n["loads_checked"]++;
+    // ---- Load: exactly the complete records; torn tail cut off
+    if (status == (int)LOAD_ERROR) { viols.Report("C09", "log_load_mismatch", "DepsLog::Load failed: " + lerr); return; }
+    if (had && fold.valid_header) {
+      for (auto& o : outs) {
+        auto f = fold.last.find(o);
+        const Got& g = got[o];
+        if (f == fold.last.end()) {
+          if (g.has) viols.Report("C09", "log_load_mismatch", "GetDeps returns dependencies for '" + o.substr(0, 40) + "' that no complete record carries");
+        } else if (!g.has) {
+          viols.Report("C09", "log_lost_record", "Load lost the complete deps record of '" + o.substr(0, 40) + "'");
+        } else if (g.mtime != f->second.mtime || g.deps != f->second.deps) {
+          viols.Report("C09", "log_load_mismatch", "GetDeps for '" + o.substr(0, 40) + "' differs from its most recent complete record");
+        } else {
+          n["deps_entries_matched"]++;
+        }
+      }
+      if (!fold.clean_eof) {
+        n["recovering_loads"]++;
+        if (!exists_after_load || size_after_load != fold.good_size)
+          viols.Report("C09", "log_load_mismatch", "after loading a log with a damaged tail the file has " + std::to_string(size_after_load) + " bytes; the last complete record ends at " + std::to_string(fold.good_size));
+      } else if (exists_after_load && size_after_load != before.size()) {
+        viols.Report("C09", "log_load_mismatch", "loading an undamaged log changed its size");
+      }
+    }
+    std::string after;
+    bool has_after = k.ReadFile(".ninja_deps", &after);
+    DepsLogFold fa = FoldDepsLog(after, has_after);
+    // ---- what this session recorded and flushed is there after the session
+    if (res.end == ProcResult::kExit && op_ok && !recompacted) {
+      std::map<std::string, Got> want;
+      if (had && fold.valid_header) for (auto& kv : fold.last) { Got g; g.has = true; g.mtime = kv.second.mtime; g.deps = kv.second.deps; want[kv.first] = g; }
+      for (auto& r : recorded_ok) want[r.first] = r.second;
+      // automatic recompaction drops entries whose output lost its deps binding
+      bool auto_recompact = had && fold.valid_header && fold.total > 1000 && fold.total > 3 * (int)fold.last.size();
+      if (auto_recompact) n["auto_recompaction"]++;
+      for (auto& kv : want) {
+        if (auto_recompact && !live.count(kv.first)) {
+          bool rerecorded = false;
+          for (auto& r : recorded_ok) if (r.first == kv.first) rerecorded = true;
+          if (!rerecorded) continue;
+        }
+        if (std::find(outs.begin(), outs.end(), kv.first) == outs.end()) continue;
+        auto a = fa.last.find(kv.first);
+        if (a == fa.last.end() || a->second.mtime != kv.second.mtime || a->second.deps != kv.second.deps)
+          viols.Report("C09", "log_lost_record", "after a session that closed normally the file does not hold the latest record of '" + kv.first.substr(0, 40) + "' (appended records must survive a reload)");
+      }
+      if (has_after && !fa.clean_eof) viols.Report("C09", "log_load_mismatch", "a normally closed session left a log that does not end on a record boundary");
+    }
+    if (recompacted && res.end == ProcResult::kExit && op_ok) {
+      n["recompactions_checked"]++;
+      for (auto& o : outs) {
+        const Got& g = got[o];
+        auto a = fa.last.find(o);
+        bool keep = g.has && live.count(o);
+        if (keep && (a == fa.last.end() || a->second.mtime != g.mtime || a->second.deps != g.deps))
+          viols.Report("C09", "log_lost_record", "recompaction lost or changed the deps of '" + o.substr(0, 40) + "' which still has a deps statement");
+        if (!keep && a != fa.last.end())
+          viols.Report("C09", "log_load_mismatch", "recompaction kept deps of '" + o.substr(0, 40) + "' although it has none to keep");
+        // in-memory view after recompaction agrees
+        const Got& ga = got_after[o];
+        if (keep && (!ga.has || ga.mtime != g.mtime || ga.deps != g.deps))
+          viols.Report("C09", "log_load_mismatch", "in-memory deps of '" + o.substr(0, 40) + "' changed across recompaction");
+      }
+      if (fa.total != (int)fa.last.size()) viols.Report("C09", "log_load_mismatch", "recompacted deps log has superseded records");
+    }
+    if (res.end == ProcResult::kCrashed) n["sessions_killed"]++;
+    if (res.fired.count("torn_write")) n["torn_writes"]++;
+  }
+
+  void Damage() {
+    std::string b;
+    if (!k.ReadFile(".ninja_deps", &b) || b.empty()) return;
+    uint32_t kind = C(5);
+    if (kind == 0) {
+      b.resize(C((uint32_t)b.size() + 1));
+      Note("damage: truncated to " + std::to_string(b.size()));
+      n["truncations"]++;
+    } else if (kind == 1) {
+      size_t cut = C((uint32_t)b.size() + 1);
+      b.resize(cut);
+      int extra = 1 + (int)C(40);
+      for (int i = 0; i < extra; i++) b += (char)C(256);
+      Note("damage: random tail after byte " + std::to_string(cut));
+      n["random_tails"]++;
+    } else {
+      return;
+    }
+    k.WriteFile(".ninja_deps", b, true);
+  }
+
+  void Run() {
+    Setup();
+    int ns = 2 + (int)C(5);
+    for (int i = 0; i < ns; i++) {
+      RunSession(i);
+      if (C(3) == 0) Damage();
+    }
+    RunSession(ns);   // one more load (+ append) after the last damage
+  }
+};
+
+std::string Hex(uint64_t v) { char b[32]; snprintf(b, sizeof b, "%016llx", (unsigned long long)v); return b; }
+
+}  // namespace
+
+RunResult RunLogChain(Tape& tape, const std::string& profile, bool thorough) {
+  RunResult r;
+  tape.Reset();
+  Viols v;
+  std::map<std::string, long>& n = r.stats.n;
+  if (profile == "C08") {
+    BuildLogChain c(tape, 0, thorough, v, r.stats.n, r.stats.faults);
+    c.Run();
+    r.decoded = c.decoded;
+    r.stats.sig = c.sig;
+    r.stats.nontrivial["C08"] = n["torn_writes"] > 0 || n["recompactions_checked"] > 0 || n["restats_checked"] > 0 || n["truncations"] > 0;
+  } else {
+    DepsChain c(tape, 0, thorough, v, r.stats.n, r.stats.faults);
+    c.Run();
+    r.decoded = c.decoded;
+    r.stats.sig = c.sig;
+    r.stats.nontrivial["C09"] = n["torn_writes"] > 0 || n["recovering_loads"] > 0 || n["recompactions_checked"] > 0;
+  }
+  r.stats.invocations = n["sessions"];
+  r.stats.full_hash = Hash64(r.decoded, r.stats.sig);
+  r.violations = v.v;
+  return r;
+}
+
+}  // namespace sim
